@@ -36,7 +36,25 @@ def build(case):
     return sb.response(r, sb.assertion(a))
 
 
+TZ = {'UTC': 'UTC0', 'east9': 'JST-9', 'west5': 'EST5'}
+
+
 def replay(case):
+    import time as _time
+    saved = os.environ.get('TZ')
+    os.environ['TZ'] = TZ[case['scn'].get('tz', 'UTC')]
+    _time.tzset()
+    try:
+        return replay_in_zone(case)
+    finally:
+        if saved is None:
+            os.environ.pop('TZ', None)
+        else:
+            os.environ['TZ'] = saved
+        _time.tzset()
+
+
+def replay_in_zone(case):
     scn = case['scn']
     kw = dict(want_response_signed=False, want_assertions_signed=False, want_assertions_or_response_signed=False)
     if scn['slack']:
@@ -58,7 +76,7 @@ def main():
         raise fw.Machinery('SPTime.tla: pipeline violates the contract: %s\n%s' % (res.violated, res.text[-2000:]))
     cases = sorted(res.cases, key=lambda c: json.dumps(c['scn'], sort_keys=True))
     if not thorough:
-        cases = [c for c in cases if c['scn']['stmt2'] != 'none' or c['scn']['conf2'] != 'none' or chk.rng.random() < 0.25]
+        cases = [c for c in cases if c['scn']['stmt2'] != 'none' or c['scn']['conf2'] != 'none' or (c['scn']['tz'] != 'UTC' and chk.rng.random() < 0.5) or chk.rng.random() < 0.25]
     nacc = 0
     for case, obs, err in fw.pmap(replay, cases, init=spc.init_worker, chunk=64):
         if err:
